@@ -164,6 +164,10 @@ func upperGuarded(a *linAn, l ssa.Value, at *ssa.BasicBlock) (bool, string) {
 		}
 		return true, "bounded by " + a.exprStr(other) + " at " + a.c.InstrPos(cd.If)
 	}
+	// the linear facts (which include predicate helpers such as need(b, n)) may bound l by the input length directly
+	if ok, why := a.prove(addF(symF("L"), lf, -1), at); ok {
+		return true, "bounded by the remaining input: " + why
+	}
 	if len(reasons) == 0 {
 		reasons = append(reasons, "no dominating comparison against the remaining input")
 	}
